@@ -691,18 +691,18 @@ def corpus_size(ntags):
 
 def corpus_sample(tier, seed, shard, nshards):
     """The skeletons of one shard.  thorough: every skeleton with <= 2 tags plus a seeded sample of 200000 three-tag
-    skeletons; quick: a seeded ~10 % sample of the <= 2-tag skeletons plus 20000 three-tag skeletons.  Shards partition
+    skeletons; quick: all with <= 1 tag, a seeded ~5 % sample of the 2-tag skeletons plus 8000 three-tag skeletons.  Shards partition
     the list by index."""
     rnd = random.Random(f"lex-corpus-{seed}")
     k = 0
     for n in (0, 1, 2):
         for ids in corpus_ids(n):
-            take = True if (tier != "quick" or n < 2) else rnd.random() < 0.10
+            take = True if (tier != "quick" or n < 2) else rnd.random() < 0.05
             if take:
                 if k % nshards == shard:
                     yield ids
                 k += 1
-    n3 = 200000 if tier != "quick" else 20000
+    n3 = 200000 if tier != "quick" else 8000
     for _ in range(n3):
         tags = tuple(rnd.randrange(len(TAGS)) for _ in range(3))
         seps = tuple(rnd.randrange(len(SEPS)) for _ in range(4))
@@ -715,7 +715,7 @@ CORPUS_BOUND = ("skeletons sep0 tag1 sep1 ... tagN sepN, tags from {block `{% se
                 "'' or '-'), raw block with body " + repr(RAW_BODY) + "} x left modifier x right modifier in {'', '-', '+'} (33 tag variants), "
                 "separators from " + repr(SEPS) + ", default delimiters: thorough = ALL skeletons with N <= 2 ("
                 + str(sum(corpus_size(n) for n in (0, 1, 2))) + ") plus a seeded sample of 200000 skeletons with N = 3; quick = all with "
-                "N <= 1, a seeded 10% sample (VERIF_SEED) of N = 2 and 20000 seeded skeletons with N = 3; each under the four "
+                "N <= 1, a seeded 5% sample (VERIF_SEED) of N = 2 and 8000 seeded skeletons with N = 3; each under the four "
                 "trim_blocks/lstrip_blocks settings")
 
 
